@@ -47,7 +47,10 @@ Inductive case :=
 | CRet (vals : list gv) (isarr : bool) (o : list jobs)
 (* pinned witness of a recorded defect that is not modelled: how = 0 the
    defect as recorded, 1 the behaviour the property asks for, 2 anything else *)
-| CPinned (cls : Z) (how : Z).
+| CPinned (cls : Z) (how : Z)
+(* a script that is a sequence of calls of bridged functions whose arguments may
+   re-enter the bridge while they are converted: the Go-side log and the error class *)
+| CReent (calls : list rcall) (log : list (Z * list Z)) (err : Z).
 
 (* what a script reads from a bridged numeric element: the double nearest to it *)
 Definition js_read (o : outcome) : option dclass :=
@@ -157,4 +160,8 @@ Definition verdict (c : case) : Z * Z :=
                 match vals with _ :: _ :: _ => true | _ => false end) in
       judge (fun a b => list_eqb jobs_eqb (fst a) (fst b) && Bool.eqb (snd a) (snd b)) (o, isarr) e e 0
   | CPinned cls how => judge Z.eqb how 0 1 cls
+  | CReent calls log err =>
+      let e := (flat_map (ev_call 8) calls, 0) in
+      judge (fun a b => list_eqb (fun x y => (fst x =? fst y) && zlist_eqb (snd x) (snd y)) (fst a) (fst b) && (snd a =? snd b))
+            (log, err) e e 0
   end.
